@@ -272,6 +272,8 @@ def analyse(R, prog):
         check_views(R, prog, cname, spec, ci, roles)
     check_misc(R, prog)
     check_bipartite_import(R, prog)
+    from ._shared import check_no_shared_state
+    check_no_shared_state(R, prog, P, ['cnfgen.graphs'], 100)
 
 
 # ------------------------------------------------------------------------------------------
